@@ -172,19 +172,19 @@ func C01(p *Prog, r *Run) {
 			for _, c := range CallsTo(s.fn, p.Func(PkgG, "NewGenome")) {
 				a := c.Common().Args
 				nodesOK, genesOK := false, false
-				for _, f := range phiWeb(a[2]).Feeders {
+				for _, f := range c04Feeders(a[2]) {
 					if cc, ok := f.(*ssa.Call); ok && cc.Call.StaticCallee() != nil && cc.Call.StaticCallee().Name() == "nodeInsert" {
 						nodesOK = true
 					}
 				}
-				for _, f := range phiWeb(a[3]).Feeders {
+				for _, f := range c04Feeders(a[3]) {
 					if cc, ok := f.(*ssa.Call); ok {
 						if _, elems, ok := appendCall(cc); ok && len(elems) == 1 && elems[0] == ssa.Value(s.copyCall) {
 							genesOK = true
 						}
 					}
 				}
-				tt := tm.Of(a[1])
+				tt := tm.Of(c04Unload(a[1]))
 				okAsm = nodesOK && genesOK && tt.Op == "extract" && strings.Contains(tt.String(), "mateTraits")
 			}
 			r.Check(okAsm, n+".assembled", p.Pos(s.fn.Pos()), "the child is built from the averaged traits, the node list filled by nodeInsert and the list of copied genes", "the child genome is not assembled from exactly the lists the function filled")
